@@ -426,6 +426,21 @@ def add_bad_records(text, which=None):
     return "\n".join(lines) + "\n"
 
 
+def many_chains(text, n, spacing=12.0):
+    """n copies of the structure's polymer atoms, each shifted along x, without chain ids,
+    separated by TER records (an assembly with many unlabelled chains)."""
+    atoms = [l for l in text.splitlines() if l.startswith("ATOM  ")]
+    out = []
+    for k in range(n):
+        for l in atoms:
+            x, y, z = _xyz(l)
+            l2 = _set_xyz(l[:21] + " " + l[22:], x + spacing * (k % 40), y + spacing * (k // 40), z)
+            out.append(l2)
+        out.append("TER")
+    out.append("END")
+    return "\n".join(out) + "\n"
+
+
 def structure_text(cfg):
     """The structure bytes for a cfg (before any content fault)."""
     text = load(cfg["item"])
@@ -439,6 +454,8 @@ def structure_text(cfg):
         text = rename(text, cfg["rename"])
     if cfg.get("chains"):
         text = split_chains(text, cfg["chains"])
+    if cfg.get("many_chains"):
+        text = many_chains(text, int(cfg["many_chains"]))
     if cfg.get("bad_records") is not None:
         text = add_bad_records(text, None if cfg["bad_records"] is True else cfg["bad_records"])
     if cfg.get("lig_het"):
